@@ -69,6 +69,7 @@ type mon struct {
 	queue     string
 	evNonce   map[string]uint64
 	accepted  []acceptedAttack
+	puppet    *chain.Account // an account of the attacker that has granted fee allowances to the attackers
 }
 
 type acceptedAttack struct {
@@ -233,7 +234,8 @@ type attack struct {
 	name   string
 	signer *chain.Account
 	msg    sdk.Msg
-	exempt string // non-empty: an accepted change of B's view is allowed by the property (reason)
+	pre    []sdk.Msg // messages placed BEFORE msg in the same tx (multi-message attacks)
+	exempt string    // non-empty: an accepted change of B's view is allowed by the property (reason)
 }
 
 func (m *mon) attacks(tp template, url string) []attack {
@@ -254,6 +256,13 @@ func (m *mon) attacks(tp template, url string) []attack {
 		a1 := clone(c, tp.msg)
 		if setMeta(a1, tp.owner.Bech, X.Bech) {
 			out = append(out, attack{name: "foreign-signer-by-" + who, signer: X, msg: a1})
+			// the same forged message travelling BEHIND a legitimately delegated one in one tx: the
+			// attacker's own puppet account has granted A an allowance, B has not
+			if m.puppet != nil && tp.kind != "gov" {
+				decoy := &palomatypes.MsgAddStatusUpdate{Status: "decoy", Level: palomatypes.MsgAddStatusUpdate_LEVEL_INFO,
+					Metadata: valsettypes.MsgMetadata{Creator: m.puppet.Bech, Signers: []string{X.Bech}}}
+				out = append(out, attack{name: "foreign-signer-behind-delegated-message-by-" + who, signer: X, msg: clone(c, a1), pre: []sdk.Msg{decoy}})
+			}
 		}
 		a2 := clone(c, tp.msg)
 		if setMeta(a2, X.Bech, X.Bech) {
@@ -282,8 +291,8 @@ func (m *mon) attacks(tp template, url string) []attack {
 	return out
 }
 
-func (m *mon) sign(signer *chain.Account, msg sdk.Msg) ([]byte, error) {
-	return m.c.SignTx([]*chain.Account{signer}, []sdk.Msg{msg}, chain.TxOpts{})
+func (m *mon) sign(signer *chain.Account, msgs ...sdk.Msg) ([]byte, error) {
+	return m.c.SignTx([]*chain.Account{signer}, msgs, chain.TxOpts{})
 }
 
 func keyClass(d string) string {
@@ -394,6 +403,21 @@ func (m *mon) prepare() error {
 		m.rec.Count("prepare_skipped:user-smart-contract", 1)
 		m.rec.Count("prepare_failed_usc:"+r2.Log[:min(len(r2.Log), 150)], 1)
 	}
+	// the attacker's puppet: a second account of the attacker that grants the attackers a fee allowance
+	// (the ordinary validator -> relayer-key arrangement, here between two accounts of one party)
+	m.puppet = chain.NewAccount("puppet", fmt.Sprintf("c03-puppet-%d", m.c.Height))
+	if err := must("fund puppet", c.Deliver(m.UA, &banktypes.MsgSend{FromAddress: m.UA.Bech, ToAddress: m.puppet.Bech, Amount: sdk.NewCoins(sdk.NewInt64Coin(chain.Denom, 1_000_000))})); err != nil {
+		return err
+	}
+	for _, x := range []*chain.Account{m.UA, m.VA} {
+		g, err := feegrant.NewMsgGrantAllowance(&feegrant.BasicAllowance{}, m.puppet.Addr, x.Addr)
+		if err != nil {
+			return err
+		}
+		if err := must("grant", c.Deliver(m.puppet, g)); err != nil {
+			return err
+		}
+	}
 	// a pending oracle event exists (nonce = cursor + 1), some validators voted already
 	for _, chn := range w.Chains {
 		n, _ := c.App.SkywayKeeper.GetLastObservedSkywayNonce(c.Ctx(), chn)
@@ -474,7 +498,7 @@ func (m *mon) oneTemplate(url string, tp template) {
 		}
 	}
 	for _, at := range m.attacks(tp, url) {
-		tx, err := m.sign(at.signer, at.msg)
+		tx, err := m.sign(at.signer, append(append([]sdk.Msg{}, at.pre...), at.msg)...)
 		if err != nil {
 			m.rec.Count("attack_unsignable", 1)
 			continue
